@@ -815,6 +815,11 @@ func (p *parser) parseHashLiteral() ast.Expression {
 	for !p.peekTokenIs(token.RBRACE) {
 		p.nextToken()
 		key := p.parseExpression(LOWEST)
+		if key == nil {
+			// {let: 1}: a token that starts no expression leaves no key to evaluate
+			p.errors = append(p.errors, fmt.Sprintf("line %d: syntax error: invalid hash key %s", p.curToken.LineNumber, p.curToken.Literal))
+			return nil
+		}
 
 		if !p.expectPeek(token.COLON) {
 			return nil
